@@ -102,8 +102,9 @@ def boundsH (j : Json) : Except String Json := do
     let sb : List (Rat × Rat) := subBounds bs m.axes (m.id2idx id)
     let shp := m.subShape id
     let coords := (sb.zip shp).map fun (p, n) => (List.range n).map fun c => cellCoord p.1 p.2 n c
+    let edges := (sb.zip shp).map fun (p, n) => (List.range (n + 1)).map fun c => cellEdge p.1 p.2 n c
     Json.mkObj [("bounds", jList (fun (p : Rat × Rat) => Json.arr #[jQ p.1, jQ p.2]) sb),
-                ("coords", jList jQs coords), ("vol", jQ (volCoef kind sb))]
+                ("coords", jList jQs coords), ("edges", jList jQs edges), ("vol", jQ (volCoef kind sb))]
   pure (jList one ids)
 
 /-- {"axes":..,"ghost":bool,"data":[ints] (row-major, base array shape)} -> per node shape and data -/
